@@ -56,3 +56,29 @@ Theorem C05_covered_call_brackets :
       /\ Forall (fun d => d_hook d = "post_call" /\ d_args d = [AS modpath; AI (BinInt.Z.of_nat n); AV rv; AV fv; AT (map AV vs); AD]) d_post.
 Proof. exact covered_call_brackets. Qed.
 Print Assumptions C05_covered_call_brackets.
+
+(* frames: a covered function reports its entry first; function_exit and implicit_return last when control reaches the end
+   of its body; nothing after the body's own reports when an exception leaves it (no exit is invented); [rb] is the outcome
+   of the body *)
+Theorem C05_covered_function_frames :
+  forall (D : data) (analyses : list (analysis (Sem.earg (d_val D)))) (modpath : string)
+         (H : list string) (funs : list fundef) (f fid : nat) (args : list (d_val D)) fd (s s' : state D) r,
+    forallb (fun fd => src_ss (f_body fd)) funs = true ->
+    nth_error funs fid = Some fd -> length args = length (f_params fd) ->
+    (Base.Util.mem_str "function_enter" H || Base.Util.mem_str "implicit_return" H) = true ->
+    ref_call D analyses modpath H funs (S f) fid args s = (r, s') ->
+    exists (rb : res (d_val D) unit) d_ann d_enter d_body d_tail,
+      dels (eng s') = (dels (eng s) ++ d_ann ++ d_enter ++ d_body ++ d_tail)%list
+      /\ Forall (fun d => d_hook d = "runtime_event" \/ d_hook d = "control_flow_event") d_ann
+      /\ Forall (fun d => d_hook d = "function_enter") d_enter
+      /\ match rb with
+         | Ok _ => (exists a x i, d_tail = (a ++ x ++ i)%list
+                                 /\ Forall (fun d => d_hook d = "runtime_event" \/ d_hook d = "control_flow_event") a
+                                 /\ Forall (fun d => d_hook d = "function_exit") x /\ Forall (fun d => d_hook d = "implicit_return") i)
+                   /\ r = Ok (d_const D KNone)
+         | Exc e => d_tail = nil /\ r = Exc e
+         | Ret v => d_tail = nil /\ r = Ok v
+         | _ => d_tail = nil
+         end.
+Proof. exact covered_function_frames. Qed.
+Print Assumptions C05_covered_function_frames.
